@@ -559,6 +559,30 @@ func runC06(c *Ctx) {
 		c.Pred("include", "include-tree-relative-paths", main, res == "ok" && strings.Join(got, " ") == strings.Join(want, " "),
 			res+" "+strings.Join(got, " "), strings.Join(want, " "), true)
 	}
+	// the value of a directive is a name whatever it spells: a blank or a comment behind it, or a spelling that is also a
+	// type / class mnemonic or begins with TYPE / CLASS, does not change what the directive does
+	{
+		fsys := fstest.MapFS{"db.a": {Data: []byte("w A 10.0.0.1\n")}}
+		owners := func(z string) string {
+			recs, res := parseZone(z, "example.org.", 60, fsys)
+			var o []string
+			for _, s := range recs {
+				o = append(o, strings.SplitN(s, "\t", 2)[0])
+			}
+			return res + " " + strings.Join(o, " ")
+		}
+		for _, tc := range []struct{ key, zone, want string }{
+			{"directive-value:origin-plain-trailing-blank", "$ORIGIN sub.example. \nw A 10.0.0.1\n", "ok w.sub.example."},
+			{"directive-value:origin-type-prefix", "$ORIGIN typescript.example.\nw A 10.0.0.1\n", "ok w.typescript.example."},
+			{"directive-value:origin-type-prefix-trailing-blank", "$ORIGIN typescript.example. \nw A 10.0.0.1\n", "ok w.typescript.example."},
+			{"directive-value:origin-class-prefix-comment", "$ORIGIN classic.example. ; c\nw A 10.0.0.1\n", "ok w.classic.example."},
+			{"directive-value:include-origin-plain", "$INCLUDE db.a sub\n", "ok w.sub.example.org."},
+			{"directive-value:include-origin-mnemonic", "$INCLUDE db.a mx\n", "ok w.mx.example.org."},
+		} {
+			got := owners(tc.zone)
+			c.Pred("directives", tc.key, "zone="+hxs(tc.zone), got == tc.want, got, tc.want, true)
+		}
+	}
 	// no TTL stated anywhere and no default configured: whether the class is written or omitted, and whether the owner is
 	// written or repeated, does not change the result — the record is refused for want of a TTL
 	for _, z := range []string{"foo A 192.0.2.1\n", "foo IN A 192.0.2.1\n", "foo CH A 192.0.2.1\n", "foo A 192.0.2.1\n  IN A 192.0.2.2\n", "foo IN A 192.0.2.1\n foo2 A 192.0.2.2\n", "foo IN ( A 192.0.2.1 )\n"} {
